@@ -389,6 +389,8 @@ func (c *Ctx) Zero(t types.Type) *Term {
 			return c.IntOf(big.NewInt(0), t)
 		case u.Info()&types.IsString != 0:
 			return c.StrLit("")
+		case u.Kind() == types.UnsafePointer || u.Kind() == types.UntypedNil:
+			return IntLit(0)
 		}
 	case *types.Pointer, *types.Map, *types.Chan, *types.Signature:
 		return IntLit(0)
